@@ -29,57 +29,15 @@ theorem c05_diagnosers_all_run_once (cfg : Cfg) (o : Opts) (inSub isLast : Bool)
   split <;> rfl
 
 /-- Each invocation yields a record whose outcome is the documented function of what happened. -/
-theorem failDiags_isEmpty (ds : List DiagRun) :
-    (((diagsOf ds).filter (·.2)).map (·.1)).isEmpty =
-      !ds.any (fun d => match d with | .results rs => rs.any (·.2) | .raises => false) := by
-  induction ds with
-  | nil => simp [diagsOf]
-  | cons d ds ih =>
-    cases d with
-    | results rs =>
-      simp only [diagsOf, List.flatMap_cons, List.filter_append, List.map_append, List.any_cons] at ih ⊢
-      have app : ∀ (a b : List Nat), (a ++ b).isEmpty = (a.isEmpty && b.isEmpty) := by
-        intro a b; cases a <;> simp
-      rw [app, ih, filter_map_isEmpty, Bool.not_or]
-    | raises => simpa [diagsOf] using ih
 theorem c05_outcome_table (cfg : Cfg) (o : Opts) (inSub isLast : Bool) (inv : Inv) :
-    (finalizeInvocation cfg o inSub isLast inv).outcome = Spec.phaseOutcome cfg o inSub isLast inv := by
-  unfold finalizeInvocation Spec.phaseOutcome
-  simp only [runDiagnosers_eq]
-  generalize hmp : measurementsPass cfg inv.meas = mp
-  generalize hpr : inv.meas.any (· == .partialRaise) = praise
-  generalize har : inv.diags.any (· == .raises) = anyRaise
-  have hfd := failDiags_isEmpty inv.diags
-  generalize hfdv : (inv.diags.any (fun d => match d with | .results rs => rs.any (·.2) | .raises => false)) = failDiag at hfd
-  generalize hfe : (((diagsOf inv.diags).filter (·.2)).map (·.1)).isEmpty = fe at hfd
-  subst hfd
-  cases hraw : inv.raw with
-  | invalid => cases praise <;> cases anyRaise <;> simp [threadResult, finalizeMeasurements, hpr, prediagnosis, postdiagnosis, Res.isTerminal]
-  | timeout => cases praise <;> cases anyRaise <;> simp [threadResult, finalizeMeasurements, hpr, prediagnosis, postdiagnosis, Res.isTerminal]
-  | exc b => cases praise <;> cases anyRaise <;> simp [threadResult, finalizeMeasurements, hpr, prediagnosis, postdiagnosis, Res.isTerminal]
-  | ret r =>
-    cases r <;> cases inSub <;> cases isLast <;> cases praise <;> cases anyRaise <;> cases mp <;> cases failDiag <;>
-      cases hs : o.stopOnMeasFail <;>
-      simp [threadResult, finalizeMeasurements, hpr, prediagnosis, postdiagnosis, Res.isTerminal, hmp, hfe, hs]
+    (finalizeInvocation cfg o inSub isLast inv).outcome = Spec.phaseOutcome cfg o inSub isLast inv :=
+  outcome_table cfg o inSub isLast inv
 
 /-- the record outcome is ERROR exactly when the executor sees a terminal result -/
 theorem c05_error_iff_terminal (cfg : Cfg) (o : Opts) (inSub isLast : Bool) (inv : Inv) :
     (finalizeInvocation cfg o inSub isLast inv).outcome = .error ↔
-    (finalizeInvocation cfg o inSub isLast inv).effective.isTerminal = true := by
-  unfold finalizeInvocation
-  simp only [runDiagnosers_eq]
-  generalize hmp : measurementsPass cfg inv.meas = mp
-  generalize hpr : inv.meas.any (· == .partialRaise) = praise
-  generalize har : inv.diags.any (· == .raises) = anyRaise
-  generalize hfe : (((diagsOf inv.diags).filter (·.2)).map (·.1)).isEmpty = fe
-  cases hraw : inv.raw with
-  | invalid => cases praise <;> cases anyRaise <;> simp [threadResult, finalizeMeasurements, hpr, prediagnosis, postdiagnosis, Res.isTerminal]
-  | timeout => cases praise <;> cases anyRaise <;> simp [threadResult, finalizeMeasurements, hpr, prediagnosis, postdiagnosis, Res.isTerminal]
-  | exc b => cases praise <;> cases anyRaise <;> simp [threadResult, finalizeMeasurements, hpr, prediagnosis, postdiagnosis, Res.isTerminal]
-  | ret r =>
-    cases r <;> cases inSub <;> cases isLast <;> cases praise <;> cases anyRaise <;> cases mp <;> cases fe <;>
-      cases hs : o.stopOnMeasFail <;>
-      simp [threadResult, finalizeMeasurements, hpr, prediagnosis, postdiagnosis, Res.isTerminal, hmp, hfe, hs]
+    (finalizeInvocation cfg o inSub isLast inv).effective.isTerminal = true :=
+  error_iff_terminal cfg o inSub isLast inv
 
 /-- Each invocation of a body yields exactly one record; a body is invoked at most repeat_limit times
     (default 3) per execution of its phase node. -/
